@@ -93,7 +93,7 @@ def run_case(case, drv):
         if impl == "timeout":
             res.fail("add_nodes:does-not-terminate", f"MIRP({fs(size)}, {fs(H)}).add_nodes({case['name']}, {fs(init)}, {fs(rate)}, {fs(cap)}) did not return within 3 s "
                                                      "(cargo size <= 0: the window of the next visit never passes the horizon)")
-        elif impl != rep:
+        elif core.err_class(impl) != core.err_class(rep):
             res.disagree("MIRP with a non-positive cargo size", impl, rep)
         res.nontrivial = False
         return res
@@ -155,7 +155,7 @@ def run_case(case, drv):
     spec = dict(size=fs(size), horizon=fs(H), ports=[dict(name=case["name"], init=fs(init), rate=fs(rate), cap=fs(cap))], order=[],
                 dist={}, sfee={}, dfee={})
     mres, mstate = MU.parse_reply(drv.ask(MU.request(spec)))
-    if mres[0][0] != impl[0]:
+    if core.err_class(mres[0][0]) != core.err_class(impl[0]):
         res.disagree("add_nodes status", impl, mres[0])
     valid = size <= cap
     if valid and impl[0] != "ok":
